@@ -179,6 +179,8 @@ def build_class(mspec, events, clock=None, hw=None):
                 if exc is not None:
                     raise exc          # injected one-shot driver fault
                 hw[(self.name, _n)] = value
+                if ('__readback__', self.name, _n) in hw:
+                    return hw.pop(('__readback__', self.name, _n))      # what the hardware claims to hold now (one shot)
                 return None if _ret == 'none' else value
             wr.__name__ = 'write_' + n
             ns['write_' + n] = wr
